@@ -74,8 +74,10 @@ def gen_prop_value(rng):
         if t in fmt.INT_RANGE:
             lo, hi = fmt.INT_RANGE[t]
             return ['wrap', name, rng.choice([lo, hi, 0, rng.randint(lo, hi)])]
-        if t in ('f32', 'f64'):
+        if t == 'f64':
             return ['wrap', name, struct.unpack('<d', gen.gen_values(rng, 'f64', 1))[0] if rng.random() < 0.5 else 1.5]
+        if t == 'f32':
+            return ['wrap', name, struct.unpack('<f', gen.gen_values(rng, 'f32', 1))[0] if rng.random() < 0.5 else 1.5]
         if t == 'str':
             return ['wrap', name, gen.gen_text(rng)]
         return ['wrap', name, rng.random() < 0.5]
@@ -123,7 +125,9 @@ def gen_channel_data(rng, kind, allow_empty=True):
         t = DT_TO_T[kind['dtype']]
         d['hex'] = gen.gen_values(rng, t, n).hex()
         d['view'] = rng.random() < 0.15       # non-contiguous view of a larger array
-        d['be'] = rng.random() < 0.04         # same values held in a big-endian (non-native) array
+        # same values held in a big-endian (non-native) array; never empty: an empty array of a dtype the
+        # writer cannot map has no determinable TDMS type and is written as a channel without data
+        d['be'] = n > 0 and rng.random() < 0.04
     elif form == 'list-int':
         n = max(1, n)
         # a list whose inferred dtype class is fixed per channel: one forcing value at a boundary of
@@ -389,3 +393,25 @@ def make_len(d):
         if k in d:
             return range(len(d[k]))
     return range(0)
+
+
+def must_accept(call):
+    """True when every object of the call is plainly inside the domain C07 names, so that a rejection by
+    the writer is itself a violation.  Deliberately narrow: duplicates and empty arrays whose element type
+    cannot be inferred (str / datetime / raw timestamp forms) are left to 'accepts is observed'."""
+    paths = set()
+    for o in call:
+        key = (o['kind'], o.get('group'), o.get('channel'))
+        if key in paths:
+            return False
+        paths.add(key)
+        if o['kind'] == 'channel':
+            d = o['data']
+            if d['form'] != 'nd' and len(make_len(d)) == 0:
+                return False
+            if d.get('be'):
+                return False        # non-native byte order input: accepted or not is observed
+        for _name, pv in (o.get('props') or []):
+            if pv[0] == 'int' and not (-2**63 <= pv[1] < 2**64):
+                return False
+    return True
